@@ -46,17 +46,34 @@ InitConnected == /\ s = Run(InitState(Cfg0), PreC)
                  /\ ok = "ok"
                  /\ hist = PreC
 
-(* connected, a/b registered as 7, subscribed to a/+ (h1): unsubscribe / re-subscribe histories *)
-PreS == Pre \o << [e |-> "api", a |-> [ApiT("Subscribe", <<"a", "+">>, 0, "h1") EXCEPT !.call = "c2"]],
+(* connected, a/b registered as 7, the parent level "a" registered by the gateway as 9, subscribed to
+   a/+ (h1): unsubscribe / re-subscribe histories; deliveries on a/b and on "a" - a topic that is a
+   proper level-prefix of the filters a/+ and a/b and is matched by a/# (multi-level wildcard
+   includes the parent level) *)
+A1 == <<"a">>
+PreS == Pre \o << [e |-> "gw",  p |-> [GwReg(A1, 9) EXCEPT !.mid = 9]],
+                  [e |-> "api", a |-> [ApiT("Subscribe", <<"a", "+">>, 0, "h1") EXCEPT !.call = "c2"]],
                   [e |-> "gw",  p |-> [GwAck("SUBACK", "pend", 0) EXCEPT !.mid = 2]] >>
 InitSubscribed == /\ s = Run(InitState(Cfg0), PreS)
                   /\ obs = Obs0
                   /\ ok = "ok"
                   /\ hist = PreS
 Apis_C27u == {ApiT("Unsubscribe", <<"a", "+">>, 0, ""), ApiT("Subscribe", <<"a", "+">>, 1, "h6"), ApiT("Subscribe", AB, 1, "h2"),
-              ApiT("Unsubscribe", AB, 0, "")}
+              ApiT("Unsubscribe", AB, 0, ""), ApiT("Subscribe", <<"a", "#">>, 0, "h7")}
 Gw_C27u == {Gw("UNSUBACK", "pend"), GwAck("SUBACK", "pend", 0), GwRc("SUBACK", "pend", 1),
-            GwPub(0, 0, 7, <<>>, "none"), GwPub(1, 0, 7, <<>>, "any"), GwPub(2, 0, 7, <<>>, "any"), Gw("PUBREL", "any")}
+            GwPub(0, 0, 7, <<>>, "none"), GwPub(1, 0, 7, <<>>, "gw"), GwPub(2, 0, 7, <<>>, "gw"), Gw("PUBREL", "gw"),
+            GwPub(0, 0, 9, <<>>, "none")}
+
+(* C27q: as above with an inbound QoS 2 exchange open (PUBLISH on a/b received, PUBREC sent): the
+   subscriptions change - Subscribe / Unsubscribe with their acknowledgements - before the PUBREL; the
+   handlers are those at delivery time, i.e. at PUBREL *)
+PreQ == PreS \o << [e |-> "gw", p |-> [GwPub(2, 0, 7, <<>>, "any") EXCEPT !.mid = 5]] >>
+InitOpenQos2 == /\ s = Run(InitState(Cfg0), PreQ)
+                /\ obs = Obs0
+                /\ ok = "ok"
+                /\ hist = PreQ
+Apis_C27q == {ApiT("Unsubscribe", <<"a", "+">>, 0, ""), ApiT("Subscribe", <<"a", "+">>, 1, "h6"), ApiT("Subscribe", AB, 1, "h2")}
+Gw_C27q == {Gw("UNSUBACK", "pend"), GwAck("SUBACK", "pend", 0), Gw("PUBREL", "gw")}
 
 ---- (* C17: publish / subscribe / register under loss, duplication, late and foreign acks *)
 Apis_C17 == {ApiT("Publish", AB, 1, ""), ApiT("Publish", AB, 2, ""), ApiT("Publish", AB, 0, ""),
